@@ -23,8 +23,13 @@ no theorem about a model decides it.  What is proved here, for all sizes:
   the rescaling C02's swap matrix is invariant under — `estimate_row_rescale_counterexample`.
 * `shoot_detailed_balance` — for the shooting kernel on lattice paths (uniform interior index,
   step-by-step generation, acceptance min(1, n_old/n_new) as C09 states it),
-  π(o)·K(o,n) = π(n)·K(n,o) for every pair of lengths; for the acceptance the code has
-  (min(1, n_old/(n_new+1)), C09 finding) the identity fails: `shoot_detailed_balance_asIs_counterexample`.
+  π(o)·K(o,n) = π(n)·K(n,o) for every pair of lengths; for the acceptance the snapshot's code had
+  (min(1, n_old/(n_new+1)): `add_to_path` failed a trial whose last admissible frame crossed — C09
+  finding, repaired in /repo by f955162) the identity fails:
+  `shoot_detailed_balance_asIs_counterexample`.  The statistical tie measured that bias on the
+  snapshot (first interface −1.8 %, last +1.2 %, 2·10⁵ steps × 8 runs) and its absence after the repair.
+* `swap_step_invariant` — drawing the assignment of paths to ensembles from its conditional
+  distribution (what the ∞-swap matrix of C02 encodes) preserves the product distribution.
 -/
 namespace Infretis.C01
 open Infretis.Lattice
@@ -248,12 +253,27 @@ example : pathW (1 / 2) 2 * kernel .stated (1 / 2) 1 2 4 = pathW (1 / 2) 4 * ker
     ∧ pathW (1 / 2) 2 * kernel .stated (1 / 2) 1 2 4 = 1 / 1024 := by
   decide +kernel
 
-/-- with the acceptance the code implements (a trial whose last admissible frame crosses is
-    rejected: min(1, n_old/(n_new+1))) the identity fails — old path 0,1,2,1,0-like with 2 interior
+/-- with the acceptance the snapshot's code implemented (`Variant.asIs`; a trial whose last
+    admissible frame crosses was rejected: min(1, n_old/(n_new+1)); repaired by f955162) the identity fails — old path 0,1,2,1,0-like with 2 interior
     frames against a new one with 4: the longer path is under-weighted by 4/5 -/
 theorem shoot_detailed_balance_asIs_counterexample :
     pathW (1 / 2) 2 * kernel .asIs (1 / 2) 1 2 4 ≠ pathW (1 / 2) 4 * kernel .asIs (1 / 2) 1 4 2
       ∧ pathW (1 / 2) 2 * kernel .asIs (1 / 2) 1 2 4 = 4 / 5 * (pathW (1 / 2) 4 * kernel .asIs (1 / 2) 1 4 2) := by
+  decide +kernel
+
+/-! ### the swap step -/
+
+/-- **Swap step (Gibbs resampling) leaves the weights invariant.**  Enumerate the admissible
+    assignments σ of paths to ensembles as a list with unnormalised weights
+    `ws[σ] = Π_i W[i, σ(i)]` (the product distribution restricted to the current set of paths).
+    The ∞-swap step draws the new assignment σ' with probability `ws[σ'] / Z`, whatever the old
+    one was.  Then  Σ_σ ws[σ] · K(σ → σ') = ws[σ'] :  the step preserves the product distribution.
+    (That the marginals of `ws/Z` are the permanent ratios is C02's statement, not repeated here.) -/
+theorem swap_step_invariant (ws : List Rat) (hZ : lsum ws ≠ 0) (j : Nat) (hj : j < ws.length) :
+    lsum (ws.map (fun w => w * (ws[j] / lsum ws))) = ws[j] := by
+  rw [lsum_map_mul_right, mul_div_cancel₀ _ hZ]
+
+example : lsum [1, 2, 1] ≠ 0 ∧ lsum ([1, 2, 1].map (fun w => w * (([1, 2, 1] : List Rat)[1] / lsum [1, 2, 1]))) = 2 := by
   decide +kernel
 
 end Infretis.C01
